@@ -99,6 +99,17 @@ def run(ctx):
             for _ in range(2000):
                 a, b = rng.choice(cells), rng.choice(cells)
                 add(mutate(mutate(s, a, grain), b, grain), "mutation2")
+    # (b') definition cycles and self-references among EQU names, directly and through forward references, then uses
+    for names in (["A"], ["A", "B"], ["A", "B", "C"], ["A", "B", "C", "D", "E"]):
+        for fwd in (0, 1):
+            for body in ("%s", "%s+1", "%s*2", "(%s)", "%s+%s"):
+                ns = names if fwd else list(reversed(names))
+                lines = []
+                for i, n in enumerate(ns):
+                    nxt = ns[(i + 1) % len(ns)]
+                    lines.append("%s\tEQU\t%s" % (n, body.replace("%s", nxt)))
+                for use in ("\tDB\t%s", "\tMOV\tAX, %s", "\tRESB\t%s", "\tJMP\t%s", "\tMOV\tAL, [%s]", "%s_\tEQU\t%s"):
+                    add("\n".join(lines) + "\n" + (use.replace("%s", ns[0])) + "\n", "equcycle")
     # (c) random bytes and mixtures of valid fragments and bytes
     frags = [ln for s in seeds for ln in s.split("\n") if ln.strip()]
     for _ in range(800 if quick else 20000):
@@ -130,6 +141,10 @@ def run(ctx):
                          "obs": [], "bits": 0, "kind": kind, "src": src, "panicat": e.get("panicat", "")})
     # (d) scale series through the worker: statements, nesting depth, long sums
     series = {}
+    from findings import Findings as _F
+    openf = _F().open
+    known_series = {"equ_doubling": "D_EquReevalExponential"}
+    known_hit = {}
     def timed(src):
         r = ctx.run_jobs([{"id": 1, "src": src, "notrace": True, "maxout": 1}], sequential=True, per_job_timeout=90.0)[1][-1]
         return r.get("us", 0) / 1e6, r.get("status")
@@ -142,15 +157,24 @@ def run(ctx):
                      # nested products / sums around a leaf that cannot be folded (label, register, 1/0): n/50 levels
                      ("horner_label", lambda n: "lbl:\n\tMOV\tAX, " + "(" * (n // 50) + "lbl" + ")*2+1" * (n // 50) + "\n"),
                      ("nested_mul_reg", lambda n: "\tMOV\tAX, [" + "2*(" * (n // 50) + "BX" + ")" * (n // 50) + "]\n"),
+                     # a chain of EQU names defined in REVERSE dependency order, each body mentioning the next name twice
+                     ("equ_doubling", lambda n: "".join("E%d\tEQU\tE%d+E%d\n" % (i, i + 1, i + 1) for i in range(n // 200)) + "E%d\tEQU\t1\n\tDD\tE0\n" % (n // 200)),
                      ("horner_div0", lambda n: "\tDD\t" + "(" * (n // 50) + "1/0" + ")*2+1" * (n // 50) + "\n")):
         ts = []
         for n in sizes:
             t, st = timed(mk(n))
             ts.append((n, round(t, 3), st))
+            if st not in ("ok", "parse") and not (st == "exit" and ts[-1][1] < 60) and known_series.get(name) in openf:
+                known_hit[known_series[name]] = known_hit.get(known_series[name], 0) + 1
+                break
             if st not in ("ok", "parse") and not (st == "exit" and ts[-1][1] < 60):
                 viol.append({"id": 0, "tags": ["C13"], "why": "abnormal termination in scale series %s n=%d: %s" % (name, n, st), "at": "scale", "i": 0, "obs": [], "bits": 0, "kind": "scale", "src": name})
         series[name] = ts
         for (n1, t1, _), (n2, t2, _) in zip(ts, ts[1:]):
+            if known_series.get(name) in openf:
+                if t1 > 0.05 and t2 / t1 > 8.0 * (n2 / n1) / 4.0:
+                    known_hit[known_series[name]] = known_hit.get(known_series[name], 0) + 1
+                continue
             if t1 > 0.05 and t2 / t1 > 8.0 * (n2 / n1) / 4.0:
                 viol.append({"id": 0, "tags": ["C13"], "why": "time grows faster than quadratic-ish bound in series %s: n=%d %.2fs -> n=%d %.2fs" % (name, n1, t1, n2, t2),
                              "at": "scale", "i": 0, "obs": [], "bits": 0, "kind": "scale", "src": name})
@@ -160,7 +184,7 @@ def run(ctx):
     known = []
     cov = {"evaluations": len(jobs) + sum(len(v) for v in series.values()), "distinct_nontrivial": len({meta[j["id"]][1] for j in jobs}),
            "outcomes": outcomes, "wall_s_running_inputs": round(t_run, 1), "scale_series_seconds": series,
-           "inputs_by_kind": {k: sum(1 for m in meta.values() if m[0] == k) for k in ("matrix", "mutation", "mutation2", "bytes")},
+           "inputs_by_kind": {k: sum(1 for m in meta.values() if m[0] == k) for k in ("matrix", "mutation", "mutation2", "equcycle", "bytes")},
            "states": sum(s["distinct"] for s in ctx.tlc_stats), "transitions": sum(s["generated"] for s in ctx.tlc_stats),
            "rule": "(a) every mnemonic of the grammar x operand-list shapes from Gen_Matrix.tla (0..3 operands of 16 kinds%s); (b) token-level mutations from Gen_Mut.tla (delete/insert/replace/duplicate/swap tokens, duplicate/delete lines, x %d positions x 34 replacement tokens incl. NUL, CR, braces, 26-digit numbers, empty strings) applied to %d seed programs%s; "
                    "(c) seeded random byte strings and mixtures of valid fragments and bytes; (d) scale series (statements, nesting depth, term count, labels, DB list) at n = %s; distinct = distinct input texts; all are non-trivial in the sense that each is a different input" % (
@@ -170,6 +194,9 @@ def run(ctx):
         v["source"] = v.get("src")
     # report (no Runner: sources are in the records)
     import os
+    for fid, n in sorted(known_hit.items()):
+        print("KNOWN-FINDING: property=C13 %s %s" % (fid, openf[fid]["what"]))
+    cov["known_findings_reproduced"] = known_hit
     rc = 0
     shown = 0
     for v in viol:
